@@ -137,6 +137,15 @@ func C16(c *Ctx) error {
 			unclearWork[s.Shape] = w >= float64(uint64(1)<<18) && !blowsUp[s.Shape]
 		}
 	}
+	var slowest *job
+	for _, j := range jobs {
+		if j.err == nil && j.res != nil && j.res.Crash == "" && (slowest == nil || j.res.Wall > slowest.res.Wall) {
+			slowest = j
+		}
+	}
+	if slowest != nil {
+		res.Note(fmt.Sprintf("slowest answered run: %s %q on %s took %d ms (limit %d ms)", slowest.plugin, slowest.param, slowest.shape.Shape, slowest.res.Wall.Milliseconds(), limit.Milliseconds()))
+	}
 	for _, j := range jobs {
 		if j.err != nil {
 			return j.err
